@@ -1209,6 +1209,9 @@ func runC15(r *Runner) string {
 			bs[r.rng.Intn(len(bs))] = "gx-~"[r.rng.Intn(4)]
 			s = string(bs)
 		}
+		if s == "" {
+			s = "_" // the empty string travels as `_`
+		}
 		r.Do("fee.naive", []string{hex.EncodeToString(h[:]), strconv.Itoa(idx), s}, "fee-naive", idx < len(t.Outputs), "")
 	}
 	// ---- satoshis: dense at both ends and around the powers of ten, the rest sampled ----
